@@ -611,6 +611,11 @@ int BaseKillPlugin::tryToKillPids(const std::vector<int>& pids) {
   int nrKilled = 0;
 
   for (int pid : pids) {
+    // cgroup.procs lists processes of other pid namespaces as 0; kill(2) with
+    // a non-positive pid would signal a whole process group (ours for 0)
+    if (pid <= 0) {
+      continue;
+    }
     auto commPath = std::string("/proc/") + std::to_string(pid) + "/comm";
     auto comm = Fs::readFileByLine(commPath);
 
